@@ -10,7 +10,7 @@ use crate::tape::Tape;
 
 pub static PROP: PropDef = PropDef {
     id: "C11",
-    rule: "encode cases: field list -> h3 encode_stateless -> reference RFC 9204 decoder must return the same list, returned size == sum(n+v+32). \
+    rule: "every decoded byte string is also decoded from a buffer of several chunks (pseudo-random cuts derived from the bytes; every single cut for <= 10 bytes; bytewise for <= 24 bytes) and must give the same fields or the same refusal; encode cases: field list -> h3 encode_stateless -> reference RFC 9204 decoder must return the same list, returned size == sum(n+v+32). \
            decode cases: byte string -> if h3 accepts, the reference must accept with the same list (so everything the reference rejects - dynamic/post-base references, non-zero Required Insert Count, \
            negative base, static index >= 99, truncated / oversized integers and strings, invalid Huffman - is rejected by h3); valid-by-construction encodings in every legal spelling must be accepted and agree. \
            exhaustive: all strings of <= 3 bytes after the 00 00 prefix, all prefixes of <= 2 bytes followed by c0, all 99 static entries by name+value and by name. \
@@ -91,6 +91,20 @@ fn check_decode(b: &[u8], origin: Origin, ctx: &mut Ctx) -> Verdict {
     ctx.eval();
     let case = || json!({"kind": "decode", "bytes": hex(b), "origin": match origin { Origin::Arbitrary => "arbitrary", Origin::ValidByConstruction => "valid", Origin::Mutant => "mutant" }});
     let got = h3_decode(b).map_err(|p| Failure::direct(format!("panic in decode_stateless: {p}"), case()))?;
+    // the same section in a buffer of several chunks decodes to the same fields / is refused alike
+    for cuts in crate::tape::cut_sets(b) {
+        ctx.eval();
+        let segs = crate::tape::Segs::new(b, &cuts);
+        let g = catch(move || {
+            let mut segs = segs;
+            decode_stateless(&mut segs, u64::MAX).ok().map(|d| d.fields.into_iter().map(|f| (f.name.to_vec(), f.value.to_vec())).collect::<Vec<Field>>())
+        })
+        .map_err(|p| Failure::direct(format!("panic in decode_stateless over a segmented buffer (cuts {cuts:?}): {p}"), case()))?;
+        if g != got.as_ref().ok().cloned() {
+            return Err(Failure::direct(format!("from chunks cut at {cuts:?} h3 decodes {:?}, from one slice {:?}", g.map(|f| fields_json(&f)), got.as_ref().ok().map(|f| fields_json(f))), case()));
+        }
+        ctx.class("decode_segmented_agrees");
+    }
     let want = rq::decode_section(b);
     match (&want, &got) {
         (Ok(w), Ok(g)) => {
